@@ -58,6 +58,10 @@ type UConn struct {
 	// echCtx is the echContex returned by makeClientHello()
 	echCtx *echClientContext
 
+	// sessionLoadedFor is the session cache key (the server name) under which
+	// uLoadSession found the session that is attached to the ClientHello.
+	sessionLoadedFor string
+
 	// presetApplied is set once buildHandshakeState has applied the preset of
 	// ClientHelloID, so that BuildHandshakeStateWithoutSession followed by
 	// BuildHandshakeState does not apply it (and regenerate key material) twice.
@@ -195,6 +199,7 @@ func (uconn *UConn) uLoadSession() error {
 		if session == nil || err != nil {
 			return err
 		}
+		uconn.sessionLoadedFor = uconn.clientSessionCacheKey()
 		if session.version < VersionTLS13 {
 			// We use the session ticket extension for tls 1.2 (and earlier: RFC 5077
 			// tickets are not tied to TLS 1.2) session resumption
